@@ -71,6 +71,20 @@ var _ http.Header
 //@   loop 1 invariant h != nil && m.Header == h && h == old(m.Header) && m.Status == old(m.Status)
 //@   loop 1 invariant forall k string :: has(h, k) && ufStr_canon(k) != k ==> !visited1[k]
 
+// A decoded query answer is exactly one of events, model or collection; no event is null and
+// every model/collection value is a proper value - anything else is an invalid response.
+//@ func DecodeEventQueryResponse
+//@   ensures[C15] result1 == nil ==> result0 != nil && (forall k int :: 0 <= k && k < len(result0.Events) ==> result0.Events[k] != nil)
+//@   ensures[C13,C15] result1 == nil && result0.Events != nil ==> result0.Model == nil && result0.Collection == nil
+//@   ensures[C13,C15] result1 == nil && result0.Events == nil && result0.Model != nil ==> result0.Collection == nil
+//@   ensures result1 != nil ==> result0 == nil && reserr.predErrOK(result1)
+//@   assigns alloc()
+//@   safety[C15]
+//@   loop 1 invariant res == r.Result && res != nil && r.Error == nil && res.Events != nil && res.Model == nil && res.Collection == nil
+//@   loop 1 invariant forall k int :: 0 <= k && k < rangeidx1 ==> res.Events[k] != nil
+//@   loop 2 invariant res == r.Result && res != nil && r.Error == nil && res.Events == nil && res.Model != nil && res.Collection == nil
+//@   loop 3 invariant res == r.Result && res != nil && r.Error == nil && res.Events == nil && res.Model == nil && res.Collection != nil
+
 // The meta object of every decoded access and call/auth answer - result, resource or error -
 // has canonical header keys.
 //@ func DecodeAccessResponse
